@@ -824,13 +824,28 @@ pub fn gen_phys_union(t: &mut Tape, o: &PhysOpts) -> Option<Phys> {
     for r in &kin1.sig {
         sig.push(row1(r));
     }
+    let scatter = t.bool();
     for (i, e) in e2.iter().enumerate() {
-        g.edges.insert(pos + i, *e);
-        g.massive.insert(pos + i, true);
-        g.weights.insert(pos + i, w2[i]);
-        sig.insert(pos + i, row2(&sig2[i]));
-        shifts.insert(pos + i, vec![0.0; d]);
-        masses.insert(pos + i, m2[i]);
+        // either as a contiguous block at the front/back, or scattered among the edges of the first component
+        let at = if scatter { t.below(g.edges.len() + 1) } else { (pos + i).min(g.edges.len()) };
+        g.edges.insert(at, *e);
+        g.massive.insert(at, true);
+        g.weights.insert(at, w2[i]);
+        sig.insert(at, row2(&sig2[i]));
+        shifts.insert(at, vec![0.0; d]);
+        masses.insert(at, m2[i]);
+    }
+    if t.bool() {
+        // the loops of the two components in arbitrary column order
+        let nl = nl1 + l2;
+        let mut perm: Vec<usize> = (0..nl).collect();
+        shuffle(t, &mut perm);
+        for r in sig.iter_mut() {
+            let old = r.clone();
+            for (c, &pc) in perm.iter().enumerate() {
+                r[c] = old[pc];
+            }
+        }
     }
     if !(g.min_proper_omega() > o.min_omega && g.dod() > 1e-3) || g.nedges() > 12 {
         return None;
